@@ -33,6 +33,7 @@ MUT = {
     "revert-sorted-unsub-outside-mutex": (R + "sorted_set_impl.go",
                                           "\t\t// weight updates that are already on their way are ignored from now on\n\t\tdeletedElement.deleted = true\n",
                                           "\t\tdeletedElement.unsubscribeFromWeightUpdates()\n\t\tdeletedElement.unsubscribeFromWeightUpdates = func() {}\n"),
+    "revert-sorted-initial-update-test": (R + "sorted_set_impl.go", "\t\t\tif initialUpdate {\n\t\t\t\tinitialUpdate = false\n\t\t\t} else {\n", "\t\t\tif _ = initialUpdate; listElement.unsubscribeFromWeightUpdates != nil {\n"),
     "sorted-no-deleted-flag": (R + "sorted_set_impl.go", "\t\tdeletedElement.deleted = true\n", ""),
     "revert-replace-added": (R + "set_impl.go", "\t\treturn !s.value.Has(element)\n", "\t\treturn true\n"),
     # DerivedVariable2: the second input's subscription computes with a stale first input
